@@ -71,15 +71,18 @@ pub fn main_campaign() -> SimCampaign {
     }
 }
 
-/// Known finding R10: a member that read to the end of the log while it was not its turn is
-/// parked as caught up; when the turn then passes to it the pending message is not forwarded
-/// until the next matching publish arrives
+/// R10 (repaired in /repo): a member that read to the end of the log while it was not its turn
+/// is parked as caught up; when the turn then passed to it the pending message was not
+/// forwarded until the next matching publish arrived. Completeness is demanded for every
+/// strategy and after every membership change now; kept as a second run of the campaign.
 pub fn probe_r10() -> SimCampaign {
     let mut c = main_campaign();
     c.name = "probe_r10_parked_member_stall";
     c.flags.avoid.group_stall = false;
-    c.quick = 600;
-    c.thorough = 6000;
+    c.gen.w_droplink = 6;
+    c.gen.w_unsubscribe = 8;
+    c.quick = 3000;
+    c.thorough = 60000;
     c.probes = vec!["shared:undelivered_at_idle"];
     c
 }
